@@ -1,8 +1,12 @@
 package rules
 
 import (
+	"encoding/json"
 	"fmt"
 	"go/token"
+	"os"
+	"os/exec"
+	"path/filepath"
 	"strings"
 
 	"golang.org/x/tools/go/ssa"
@@ -20,10 +24,10 @@ func init() {
 	})
 	register(&PropRules{
 		ID:      "C13",
-		Explain: "saslauthd wire codec — structural part: (C13.1) framing shape: the encoder writes, per part, a buffer of 2+len(part) bytes whose first two bytes are BigEndian.PutUint16(len(part)) of the same part followed by its bytes, parts over 65535 are refused; the split function reads the length with BigEndian.Uint16(data[0:2]), refuses lengths over MaxRequestLength before returning any token, returns a token only when it is data[0:strlen+2] with advance == strlen+2 and enough data is present, and answers 'need more data' (0,nil,nil) only when not at EOF (or at EOF with no data left); the decoder strips exactly the 2 length bytes; (C13.2) per-field limits: each of the four request fields is refused by the encoder exactly when len > MaxRequestLength (= 256, pinned), placed at its own index, and the decoder refuses empty login/password; (C13.3) response grammar agreement (= C05.5) and the bounded reply (= C05.4); (C13.4) Go ↔ C agreement is decided by the C-side engine (C20: field order, htons, 256-byte clipping). Round 3: Scan() only while a part is missing (C13.1); every decoding entry point (Decode, Unmarshal) delegates to Decode over the whole input or is itself subject to the decode rules (C13.2/C13.3). Round 4: the encoder is accepted in two equally strict forms (a buffer and a Write per part, or appending length and bytes of every part to one buffer that is written once with the error checked); Request.Encode hands over exactly [Login, Password, Service, Realm] and the decoder assigns each field its own part. Round 5: the frame decoder is decided in two forms — the scanner form (rules as before, plus: the value compared with len(parts) on a success exit is the number of parts stored, by induction over the loop) and a reader form without bufio.Scanner (c131decReader: the stream is taken only through io.ReadFull / io.ReadAtLeast / binary.Read on the reader itself; per part a complete read of exactly two length bytes, the big-endian length known to be <= MaxRequestLength — and not limited below it — before the payload is read, a complete read of exactly that many bytes, both errors nil before the part is stored; parts stored at consecutive indices from 0; nil only when the counter reached len(parts); no read once all parts are stored, none before or after the loop).",
+		Explain: "saslauthd wire codec — structural part: (C13.1) framing shape: the encoder writes, per part, a buffer of 2+len(part) bytes whose first two bytes are BigEndian.PutUint16(len(part)) of the same part followed by its bytes, parts over 65535 are refused; the split function reads the length with BigEndian.Uint16(data[0:2]), refuses lengths over MaxRequestLength before returning any token, returns a token only when it is data[0:strlen+2] with advance == strlen+2 and enough data is present, and answers 'need more data' (0,nil,nil) only when not at EOF (or at EOF with no data left); the decoder strips exactly the 2 length bytes; (C13.2) per-field limits: each of the four request fields is refused by the encoder exactly when len > MaxRequestLength (= 256, pinned), placed at its own index, and the decoder refuses empty login/password; (C13.3) response grammar agreement (= C05.5) and the bounded reply (= C05.4); (C13.4) Go ↔ C agreement is decided by the C-side engine (C20: field order, htons, 256-byte clipping). Round 3: Scan() only while a part is missing (C13.1); every decoding entry point (Decode, Unmarshal) delegates to Decode over the whole input or is itself subject to the decode rules (C13.2/C13.3). Round 4: the encoder is accepted in two equally strict forms (a buffer and a Write per part, or appending length and bytes of every part to one buffer that is written once with the error checked); Request.Encode hands over exactly [Login, Password, Service, Realm] and the decoder assigns each field its own part. Round 5: the frame decoder is decided in two forms — the scanner form (rules as before, plus: the value compared with len(parts) on a success exit is the number of parts stored, by induction over the loop) and a reader form without bufio.Scanner (c131decReader: the stream is taken only through io.ReadFull / io.ReadAtLeast / binary.Read on the reader itself; per part a complete read of exactly two length bytes, the big-endian length known to be <= MaxRequestLength — and not limited below it — before the payload is read, a complete read of exactly that many bytes, both errors nil before the part is stored; parts stored at consecutive indices from 0; nil only when the counter reached len(parts); no read once all parts are stored, none before or after the loop). Round 4: C13.4 is no longer only referred to C20 — this check runs pam/pamcheck.py (rule family C20.3) itself and imports its obligations as C13.4: the bytes the PAM module hands to the socket are, per field in the order user, password, \"\", \"\", the big-endian 16-bit value min(strlen, 256) followed by exactly that many bytes of the field, whether each part is written by itself or the request is assembled in one buffer and written once.",
 		Undec:   []string{"round-trip equality for every byte string (value level)", "re-encode == consumed bytes", "independence from read fragmentation (a property of bufio.Scanner executions)"},
 		Run:     runC13,
-		Floors:  map[string]int{"C13.1": 3, "C13.2": 2},
+		Floors:  map[string]int{"C13.1": 3, "C13.2": 2, "C13.4": 4},
 	})
 }
 
@@ -464,6 +468,55 @@ func runC13(c *an.Ctx, p *an.Prog, thorough bool) {
 	c132(c, p)
 	c055(c, p, "C13.3")
 	c054(c, p, "C13.3")
+	c134(c, p)
+}
+
+// c134 — the C side of the codec agreement (last clause of C13: "the PAM module's encoder produces the same bytes as the Go
+// encoder for the same fields"). The module is C, so its encoder is decided by the C-side engine: `pamcheck.py C13 quick
+// --obligations` evaluates the request-shape family (C20.3) on <repo>/pam/pam_whawty.c and prints its obligations as JSON; they are
+// imported here one by one under C13.4. Anything that keeps the engine from answering is an UNRESOLVED obligation, never a pass.
+// The C file is the same in every Go build configuration: evaluated once, for the default configuration.
+func c134(c *an.Ctx, p *an.Prog) {
+	if len(p.Cfg.Tags) > 0 || p.Cfg.GOARCH != "" {
+		return
+	}
+	script := os.Getenv("VERIF_PAMCHECK")
+	if script == "" {
+		if exe, err := os.Executable(); err == nil {
+			script = filepath.Join(filepath.Dir(filepath.Dir(exe)), "pam", "pamcheck.py")
+		}
+	}
+	pos := "pam/pam_whawty.c"
+	tmp, err := os.MkdirTemp("", "c134-")
+	if err != nil {
+		c.Undecided("C13.4", "pam-engine", pos, "UNRESOLVED: cannot create a scratch directory: "+err.Error())
+		return
+	}
+	defer os.RemoveAll(tmp)
+	cmd := exec.Command("python3", script, "C13", "quick", "--obligations")
+	cmd.Env = append(os.Environ(), "VERIF_REPO="+p.Cfg.Dir, "VERIF_OUT="+tmp)
+	out, err := cmd.Output()
+	var res struct {
+		Obligations []struct{ Rule, Key, Status, Pos, Detail string }
+	}
+	if err == nil {
+		err = json.Unmarshal(out, &res)
+	}
+	if err != nil {
+		c.Undecided("C13.4", "pam-engine", pos, fmt.Sprintf("UNRESOLVED: the C-side engine %s gave no answer for %s: %v", script, filepath.Join(p.Cfg.Dir, pos), err))
+		return
+	}
+	for _, o := range res.Obligations {
+		key := strings.TrimPrefix(o.Key, o.Rule+"|")
+		switch o.Status {
+		case "discharged":
+			c.OK(o.Rule, key, o.Pos, o.Detail)
+		case "violated":
+			c.Fail(o.Rule, key, o.Pos, o.Detail)
+		default:
+			c.Undecided(o.Rule, key, o.Pos, strings.TrimPrefix(o.Detail, "UNDECIDED: "))
+		}
+	}
 }
 
 func c131enc(c *an.Ctx, p *an.Prog) {
